@@ -81,6 +81,11 @@ pub fn run(args: &[String]) -> i32 {
         ("= 0 JPY", None),
         ("= -1,234.50 CHF", None),
         ("= 0", None),
+        // wide-character commodities: measured in display columns, not bytes or chars
+        ("= 1,000 あ", None),
+        ("= 5 あああ", None),
+        ("1,000 あ", Some(5)),
+        ("12 あb = 30 あb", Some(2)),
     ];
     let maxw = if thorough { 90 } else { 70 };
     for w in 1..=maxw {
